@@ -186,7 +186,7 @@ func Literal(cfg *Config, word *syntax.Word) (string, error) {
 		return "", nil
 	}
 	cfg = prepareConfig(cfg)
-	field, err := cfg.wordField(word.Parts, quoteNone)
+	field, err := cfg.wordField(word.Parts, quoteNone, true)
 	if err != nil {
 		return "", err
 	}
@@ -204,7 +204,7 @@ func Document(cfg *Config, word *syntax.Word) (string, error) {
 		return "", nil
 	}
 	cfg = prepareConfig(cfg)
-	field, err := cfg.wordField(word.Parts, quoteHeredoc)
+	field, err := cfg.wordField(word.Parts, quoteHeredoc, false)
 	if err != nil {
 		return "", err
 	}
@@ -222,7 +222,7 @@ func Pattern(cfg *Config, word *syntax.Word) (string, error) {
 		return "", nil
 	}
 	cfg = prepareConfig(cfg)
-	field, err := cfg.wordField(word.Parts, quoteNone)
+	field, err := cfg.wordField(word.Parts, quoteNone, false)
 	if err != nil {
 		return "", err
 	}
@@ -542,7 +542,10 @@ const (
 	quoteSingle
 )
 
-func (cfg *Config) wordField(wps []syntax.WordPart, ql quoteLevel) ([]fieldPart, error) {
+// wordField expands a word into the parts of a single field. If unescape is
+// set, backslashes in unquoted literals are removed, as quote removal does
+// outside of patterns.
+func (cfg *Config) wordField(wps []syntax.WordPart, ql quoteLevel, unescape bool) ([]fieldPart, error) {
 	var field []fieldPart
 	for i, wp := range wps {
 		switch wp := wp.(type) {
@@ -575,6 +578,18 @@ func (cfg *Config) wordField(wps []syntax.WordPart, ql quoteLevel) ([]fieldPart,
 				}
 				s = sb.String()
 			}
+			if ql == quoteNone && unescape && strings.Contains(s, "\\") {
+				sb := cfg.strBuilder()
+				for i := 0; i < len(s); i++ {
+					b := s[i]
+					if b == '\\' && i+1 < len(s) {
+						i++
+						b = s[i]
+					}
+					sb.WriteByte(b)
+				}
+				s = sb.String()
+			}
 			s, _, _ = strings.Cut(s, "\x00") // TODO: why is this needed?
 			field = append(field, fieldPart{val: s})
 		case *syntax.SglQuoted:
@@ -585,7 +600,7 @@ func (cfg *Config) wordField(wps []syntax.WordPart, ql quoteLevel) ([]fieldPart,
 			}
 			field = append(field, fp)
 		case *syntax.DblQuoted:
-			wfield, err := cfg.wordField(wp.Parts, quoteDouble)
+			wfield, err := cfg.wordField(wp.Parts, quoteDouble, false)
 			if err != nil {
 				return nil, err
 			}
@@ -729,7 +744,7 @@ func (cfg *Config) wordFields(wps []syntax.WordPart) ([][]fieldPart, error) {
 				}
 			}
 			allowEmpty = true
-			wfield, err := cfg.wordField(wp.Parts, quoteDouble)
+			wfield, err := cfg.wordField(wp.Parts, quoteDouble, false)
 			if err != nil {
 				return nil, err
 			}
